@@ -64,7 +64,7 @@ Record inv (s : st) : Prop := {
   i_done : forall j f, c_phase (callers s j) = CDone (OOk f) -> f_op f = c_op (callers s j)
 }.
 
-Lemma inv_init ops dl n : inv (init ops dl n).
+Lemma inv_init ops dl dk n : inv (initd ops dl dk n).
 Proof. split; cbn; intros; try contradiction; try discriminate; auto. Qed.
 
 Ltac case_upd j i :=
@@ -89,31 +89,53 @@ Proof.
   - intros j f Hp. case_upd j i; [rewrite Eop; eauto | eauto].
 Qed.
 
-Lemma step_inv b s e s' : inv s -> step b s e = Some s' -> inv s'.
+(* the lookup half of dispatch *)
+Lemma lookup_inv s f s' : inv s -> lookup_step s f = Some s' -> inv s'.
+Proof.
+  intros Hinv H. pose proof Hinv as [Hreg Hchan Hcap Hrd Htook Hdone]. unfold lookup_step in H.
+  destruct (rd s) eqn:Er; [|discriminate].
+  destruct (reg_lookup (reg s) (f_op f)) as [j0|] eqn:El; injection H as <-; [|exact Hinv].
+  split; cbn; auto.
+  intros j f' X. injection X as -> ->.
+  destruct (Hreg _ _ (reg_lookup_in _ _ _ El)) as (_ & B & _). now symmetry.
+Qed.
+
+Ltac touch Ep := apply inv_touch; auto; cbn; rewrite ?Ep; cbn; try discriminate; try tauto; auto.
+
+Lemma step_inv tk b s e s' : inv s -> step tk b s e = Some s' -> inv s'.
 Proof.
   intros Hinv H. pose proof Hinv as [Hreg Hchan Hcap Hrd Htook Hdone].
-  destruct e as [i|i|i|i|f| |i t|i]; cbn [step] in H.
+  destruct e as [i|i|i|i|f| |i t|i|i|i|op]; cbn [step] in H.
   - (* ERegister *)
     destruct (Nat.ltb i (ncallers s)) eqn:Elt; [|discriminate]. cbn [negb] in H.
     apply Nat.ltb_lt in Elt.
-    destruct (c_phase (callers s i)) eqn:Ep; try discriminate. injection H as <-.
-    split; cbn.
-    + intros k j Hin.
-      assert (Hin' : In (k, j) (reg s) \/ (k, j) = (c_op (callers s i), i)).
-      { destruct (reg_lookup (reg s) (c_op (callers s i))); [left; exact Hin|].
-        destruct Hin as [X|X]; [right; now symmetry | left; exact X]. }
-      destruct Hin' as [X|X].
-      * destruct (Hreg k j X) as (A & B & C). case_upd j i; cbn; auto.
-      * injection X as -> ->. rewrite upd_same. cbn. auto.
-    + intros j f Hf. case_upd j i; cbn in *; eauto.
-    + intros j. case_upd j i; cbn; auto.
-    + intros j f Hr. case_upd j i; cbn; eauto.
-    + intros j t f Hp. case_upd j i; cbn in *; [discriminate|eauto].
-    + intros j f Hp. case_upd j i; cbn in *; [discriminate|eauto].
+    destruct (c_phase (callers s i)) eqn:Ep; try discriminate.
+    assert (Hcons : forall r, (r = reg s \/ r = (c_op (callers s i), i) :: reg s) ->
+              inv (with_reg (with_callers s (upd (callers s) i (set_phase (callers s i) CParked))) r)).
+    { intros r Hr. split; cbn.
+      + intros k j Hin.
+        assert (Hin' : In (k, j) (reg s) \/ (k, j) = (c_op (callers s i), i)).
+        { destruct Hr as [->| ->]; [left; exact Hin|].
+          destruct Hin as [X|X]; [right; now symmetry | left; exact X]. }
+        destruct Hin' as [X|X].
+        * destruct (Hreg k j X) as (A & B & C). case_upd j i; cbn; auto.
+        * injection X as -> ->. rewrite upd_same. cbn. auto.
+      + intros j f Hf. case_upd j i; cbn in *; eauto.
+      + intros j. case_upd j i; cbn; auto.
+      + intros j f Hr'. case_upd j i; cbn; eauto.
+      + intros j t f Hp. case_upd j i; cbn in *; [discriminate|eauto].
+      + intros j f Hp. case_upd j i; cbn in *; [discriminate|eauto]. }
+    destruct tk.
+    + injection H as <-. apply Hcons. destruct (c_op (callers s i) <? 0); [auto|].
+      destruct (reg_lookup (reg s) (c_op (callers s i))); auto.
+    + destruct (c_data (callers s i)); [| injection H as <-; touch Ep |];
+        (destruct (c_op (callers s i) <? 0); [injection H as <-; touch Ep|]);
+        (destruct (reg_lookup (reg s) (c_op (callers s i))); injection H as <-; [touch Ep | apply Hcons; auto]).
   - (* ERelease *)
     destruct (Nat.ltb i (ncallers s)) eqn:Elt; [|discriminate]. cbn [negb] in H.
-    destruct (c_phase (callers s i)) eqn:Ep; try discriminate. injection H as <-.
-    apply inv_touch; auto; cbn; try discriminate; auto.
+    destruct (c_phase (callers s i)) eqn:Ep; try discriminate.
+    destruct tk; [injection H as <-; touch Ep|].
+    destruct (c_data (callers s i)); injection H as <-; touch Ep.
   - (* ESendOk *)
     destruct (Nat.ltb i (ncallers s)) eqn:Elt; [|discriminate]. cbn [negb] in H.
     destruct (c_send (callers s i)) eqn:Es; try discriminate. injection H as <-.
@@ -122,12 +144,7 @@ Proof.
     destruct (Nat.ltb i (ncallers s)) eqn:Elt; [|discriminate]. cbn [negb] in H.
     destruct (c_send (callers s i)) eqn:Es; try discriminate. injection H as <-.
     apply inv_touch; auto.
-  - (* EArrive *)
-    destruct (rd s) eqn:Er; [|discriminate].
-    destruct (reg_lookup (reg s) (f_op f)) as [j0|] eqn:El; injection H as <-; [|exact Hinv].
-    split; cbn; auto.
-    intros j f' X. injection X as -> ->.
-    destruct (Hreg _ _ (reg_lookup_in _ _ _ El)) as (_ & B & _). now symmetry.
+  - (* EArrive *) eapply lookup_inv; eassumption.
   - (* EDeliver *)
     destruct (rd s) as [|j0 f0] eqn:Er; [discriminate|].
     pose proof (Hrd j0 f0 eq_refl) as Hf0.
@@ -143,7 +160,7 @@ Proof.
   - (* ETake *)
     destruct (Nat.ltb i (ncallers s)) eqn:Elt; [|discriminate]. cbn [negb] in H.
     destruct (c_phase (callers s i)) eqn:Ep; try discriminate.
-    destruct t.
+    destruct t; [| | |discriminate].
     + destruct (c_chan (callers s i)) as [|f0 rest] eqn:Ec; [discriminate|]. injection H as <-.
       assert (Hf0 : f_op f0 = c_op (callers s i)) by (apply Hchan; rewrite Ec; now left).
       split; cbn.
@@ -153,14 +170,13 @@ Proof.
       * intros j f Hr. case_upd j i; cbn; eauto.
       * intros j t f Hp. case_upd j i; cbn in *; [injection Hp as _ <-; exact Hf0 | eauto].
       * intros j f Hp. case_upd j i; cbn in *; [discriminate|eauto].
-    + destruct (c_deadline (callers s i)); [|discriminate]. injection H as <-.
-      apply inv_touch; auto; cbn; try discriminate; auto.
-    + destruct (c_send (callers s i)); try discriminate. injection H as <-.
-      apply inv_touch; auto; cbn; try discriminate; auto.
+    + destruct (match tk with KAdapter => c_deadline (callers s i) | KNats => true end); [|discriminate].
+      injection H as <-. touch Ep.
+    + destruct (c_send (callers s i)); try discriminate. injection H as <-. touch Ep.
   - (* EUnregister *)
     destruct (Nat.ltb i (ncallers s)) eqn:Elt; [|discriminate]. cbn [negb] in H.
     destruct (c_phase (callers s i)) as [| | |t got|] eqn:Ep; try discriminate.
-    destruct (outcome_of t got) as [o|] eqn:Eo; [|discriminate]. injection H as <-.
+    destruct (outcome_of tk t got) as [o|] eqn:Eo; [|discriminate]. injection H as <-.
     split; cbn.
     + intros k j Hin. apply reg_remove_in in Hin. destruct Hin as [Hin Hne].
       destruct (Hreg k j Hin) as (A & B & C). case_upd j i; cbn; auto; try congruence; exfalso; congruence.
@@ -169,15 +185,27 @@ Proof.
     + intros j f Hr. case_upd j i; cbn; eauto.
     + intros j t' f Hp. case_upd j i; cbn in *; [discriminate|eauto].
     + intros j f Hp. case_upd j i; cbn in *; [|eauto].
-      injection Hp as ->. destruct t, got; cbn in Eo; try discriminate; injection Eo as <-.
-      eapply Htook; exact Ep.
+      injection Hp as ->. eapply (Htook i t f). rewrite Ep. f_equal.
+      destruct t, got as [g|]; cbn in Eo; try discriminate;
+        destruct tk; try destruct (is_na g); congruence.
+  - (* ENotOpen *)
+    destruct (Nat.ltb i (ncallers s)) eqn:Elt; [|discriminate]. cbn [negb] in H.
+    destruct tk; [discriminate|].
+    destruct (c_phase (callers s i)) eqn:Ep; try discriminate. injection H as <-. touch Ep.
+  - (* EPublishFail *)
+    destruct (Nat.ltb i (ncallers s)) eqn:Elt; [|discriminate]. cbn [negb] in H.
+    destruct tk; [discriminate|].
+    destruct (c_phase (callers s i)) eqn:Ep; try discriminate.
+    destruct (c_data (callers s i)); try discriminate. injection H as <-. touch Ep.
+  - (* EArrive503 *)
+    destruct tk; [discriminate|]. eapply lookup_inv; eassumption.
 Qed.
 
-Lemma run_inv b evs : forall s s', inv s -> run b s evs = Some s' -> inv s'.
+Lemma run_inv tk b evs : forall s s', inv s -> run tk b s evs = Some s' -> inv s'.
 Proof.
   induction evs as [|e evs IH]; intros s s' Hi H; cbn [run] in H.
   - injection H as <-. exact Hi.
-  - destruct (step b s e) as [s1|] eqn:E; [|discriminate]. eapply IH; [|exact H]. eapply step_inv; eassumption.
+  - destruct (step tk b s e) as [s1|] eqn:E; [|discriminate]. eapply IH; [|exact H]. eapply step_inv; eassumption.
 Qed.
 
 (** ** facts that hold of every step *)
@@ -187,185 +215,375 @@ Ltac split_step H :=
          | match ?x with _ => _ end = _ => destruct x eqn:?; try discriminate
          end.
 
-Lemma step_keeps_shape b s e s' : step b s e = Some s' ->
-  ncallers s' = ncallers s /\ (forall j, c_op (callers s' j) = c_op (callers s j))
-  /\ (forall j, c_deadline (callers s' j) = c_deadline (callers s j)).
-Proof.
-  intros H. destruct e as [i|i|i|i|f| |i t|i]; cbn [step] in H; split_step H;
-    injection H as <-; cbn; (split; [reflexivity|]); split; intros k;
-    try reflexivity;
-    try (match goal with
+Ltac upd_cases k :=
+  repeat match goal with
          | |- context [upd _ ?i _ k] =>
-           destruct (Nat.eq_dec k i) as [->|?]; [rewrite upd_same | rewrite upd_other by assumption]; reflexivity
-         end).
-Qed.
+           destruct (Nat.eq_dec k i) as [->|?]; [rewrite upd_same | rewrite upd_other by assumption]
+         end.
 
-Lemma step_done_stable b s e s' i o :
-  step b s e = Some s' -> c_phase (callers s i) = CDone o -> c_phase (callers s' i) = CDone o.
+Lemma step_keeps_shape tk b s e s' : step tk b s e = Some s' ->
+  ncallers s' = ncallers s /\ (forall j, c_op (callers s' j) = c_op (callers s j))
+  /\ (forall j, c_deadline (callers s' j) = c_deadline (callers s j))
+  /\ (forall j, c_data (callers s' j) = c_data (callers s j)).
 Proof.
-  intros H Hp. destruct e as [i0|i0|i0|i0|f| |i0 t|i0]; cbn [step] in H; split_step H;
-    injection H as <-; cbn; try exact Hp;
-    try (match goal with
-         | |- context [upd _ ?k _ i] =>
-           destruct (Nat.eq_dec i k) as [->|?]; [rewrite upd_same | rewrite upd_other by assumption];
-           cbn; try exact Hp; congruence
-         end).
+  intros H. destruct e as [i|i|i|i|f| |i t|i|i|i|op]; cbn [step] in H; unfold lookup_step in H; split_step H;
+    injection H as <-; cbn; (split; [reflexivity|]); (split; [|split]); intros k;
+    try reflexivity; upd_cases k; reflexivity.
 Qed.
 
-Lemma run_done_stable b evs : forall s s' i o,
-  run b s evs = Some s' -> c_phase (callers s i) = CDone o -> c_phase (callers s' i) = CDone o.
+Lemma step_done_stable tk b s e s' i o :
+  step tk b s e = Some s' -> c_phase (callers s i) = CDone o -> c_phase (callers s' i) = CDone o.
+Proof.
+  intros H Hp. destruct e as [i0|i0|i0|i0|f| |i0 t|i0|i0|i0|op]; cbn [step] in H; unfold lookup_step in H; split_step H;
+    injection H as <-; cbn; try exact Hp;
+    upd_cases i; cbn; try exact Hp; congruence.
+Qed.
+
+Lemma run_done_stable tk b evs : forall s s' i o,
+  run tk b s evs = Some s' -> c_phase (callers s i) = CDone o -> c_phase (callers s' i) = CDone o.
 Proof.
   induction evs as [|e evs IH]; intros s s' i o H Hp; cbn [run] in H.
   - injection H as <-. exact Hp.
-  - destruct (step b s e) as [s1|] eqn:E; [|discriminate]. eapply IH; [exact H|]. eapply step_done_stable; eassumption.
+  - destruct (step tk b s e) as [s1|] eqn:E; [|discriminate]. eapply IH; [exact H|]. eapply step_done_stable; eassumption.
 Qed.
 
-Lemma run_keeps_shape b evs : forall s s', run b s evs = Some s' ->
+Lemma run_keeps_shape tk b evs : forall s s', run tk b s evs = Some s' ->
   ncallers s' = ncallers s /\ (forall j, c_op (callers s' j) = c_op (callers s j))
-  /\ (forall j, c_deadline (callers s' j) = c_deadline (callers s j)).
+  /\ (forall j, c_deadline (callers s' j) = c_deadline (callers s j))
+  /\ (forall j, c_data (callers s' j) = c_data (callers s j)).
 Proof.
   induction evs as [|e evs IH]; intros s s' H; cbn [run] in H.
   - injection H as <-. auto.
-  - destruct (step b s e) as [s1|] eqn:E; [|discriminate].
-    destruct (step_keeps_shape b s e s1 E) as (A & B & C). destruct (IH s1 s' H) as (A' & B' & C').
+  - destruct (step tk b s e) as [s1|] eqn:E; [|discriminate].
+    destruct (step_keeps_shape tk b s e s1 E) as (A & B & C & D). destruct (IH s1 s' H) as (A' & B' & C' & D').
     repeat split; intros; congruence.
 Qed.
+
+Lemma run_app tk b a : forall c s, run tk b s (a ++ c) = match run tk b s a with Some s1 => run tk b s1 c | None => None end.
+Proof. induction a as [|e a IH]; intros c s; cbn [app run]; [reflexivity|]. destruct (step tk b s e); auto. Qed.
 
 (** ** C01 *)
 Definition distinct_ops (ops : nat -> Z) (n : nat) : Prop :=
   forall i j, (i < n)%nat -> (j < n)%nat -> ops i = ops j -> i = j.
 
-Lemma own_response b ops dl n evs s i f :
-  run b (init ops dl n) evs = Some s -> c_phase (callers s i) = CDone (OOk f) -> f_op f = ops i.
+Lemma own_response tk b ops dl dk n evs s i f :
+  run tk b (initd ops dl dk n) evs = Some s -> c_phase (callers s i) = CDone (OOk f) -> f_op f = ops i.
 Proof.
-  intros H Hp. pose proof (run_inv b evs _ _ (inv_init ops dl n) H) as I.
-  rewrite (i_done s I i f Hp). destruct (run_keeps_shape b evs _ _ H) as (_ & B & _). now rewrite B.
+  intros H Hp. pose proof (run_inv tk b evs _ _ (inv_init ops dl dk n) H) as I.
+  rewrite (i_done s I i f Hp). destruct (run_keeps_shape tk b evs _ _ H) as (_ & B & _). now rewrite B.
 Qed.
 
-Lemma registry_empties b ops dl n evs s :
-  run b (init ops dl n) evs = Some s ->
+Lemma registry_empties tk b ops dl dk n evs s :
+  run tk b (initd ops dl dk n) evs = Some s ->
   (forall i, (i < n)%nat -> exists o, c_phase (callers s i) = CDone o) -> reg s = [].
 Proof.
-  intros H Hall. pose proof (run_inv b evs _ _ (inv_init ops dl n) H) as I.
-  destruct (run_keeps_shape b evs _ _ H) as (A & _). cbn in A.
+  intros H Hall. pose proof (run_inv tk b evs _ _ (inv_init ops dl dk n) H) as I.
+  destruct (run_keeps_shape tk b evs _ _ H) as (A & _). cbn in A.
   destruct (reg s) as [|[k j] r] eqn:E; [reflexivity|]. exfalso.
   destruct (i_reg s I k j) as (Hj & _ & Hfl); [rewrite E; now left|].
   rewrite A in Hj. destruct (Hall j Hj) as [o Ho]. rewrite Ho in Hfl. exact Hfl.
 Qed.
 
-(** frames for op ids that are not registered (never issued, completed, timed out and gone) are inert *)
-Lemma unregistered_arrival_inert b s f :
-  rd s = RIdle -> reg_lookup (reg s) (f_op f) = None -> step b s (EArrive f) = Some s.
-Proof. intros Hr Hl. cbn [step]. now rewrite Hr, Hl. Qed.
+(** a finished request has no registry entry pointing at its channel - on every exit path, whatever
+    the op ids (no distinctness needed) *)
+Lemma done_no_entry tk b ops dl dk n evs s i o :
+  run tk b (initd ops dl dk n) evs = Some s -> c_phase (callers s i) = CDone o ->
+  forall k, ~ In (k, i) (reg s).
+Proof.
+  intros H Hp k Hin. pose proof (run_inv tk b evs _ _ (inv_init ops dl dk n) H) as I.
+  destruct (i_reg s I k i Hin) as (_ & _ & Hfl). rewrite Hp in Hfl. exact Hfl.
+Qed.
 
-(** with pairwise distinct op ids, a caller in flight is registered under its own op id, and one
-    that is not in flight (not started, or finished) is not registered *)
+(** frames for op ids that are not registered (never issued, completed, timed out and gone) are inert *)
+Lemma unregistered_arrival_inert tk b s f :
+  rd s = RIdle -> reg_lookup (reg s) (f_op f) = None -> step tk b s (EArrive f) = Some s.
+Proof. intros Hr Hl. cbn [step lookup_step]. unfold lookup_step. now rewrite Hr, Hl. Qed.
+
+Lemma unregistered_503_inert b s op :
+  rd s = RIdle -> reg_lookup (reg s) op = None -> step KNats b s (EArrive503 op) = Some s.
+Proof. intros Hr Hl. cbn [step]. unfold lookup_step. cbn [f_op na_frame]. now rewrite Hr, Hl. Qed.
+
+(** with pairwise distinct op ids, a caller in flight (with a well-formed op id) is registered under its
+    own op id, and one that is not in flight (not started, or finished) - or whose op id is malformed
+    (negative in the model) - is not registered *)
 Definition reg_ok (ops : nat -> Z) (n : nat) (s : st) : Prop :=
   forall i, (i < n)%nat ->
-    (in_flight (c_phase (callers s i)) -> reg_lookup (reg s) (ops i) = Some i)
-    /\ (~ in_flight (c_phase (callers s i)) -> reg_lookup (reg s) (ops i) = None).
+    (in_flight (c_phase (callers s i)) -> 0 <= ops i -> reg_lookup (reg s) (ops i) = Some i)
+    /\ (~ in_flight (c_phase (callers s i)) \/ ops i < 0 -> reg_lookup (reg s) (ops i) = None).
 
-Lemma step_reg_ok b ops n s e s' :
-  distinct_ops ops n -> ncallers s = n -> (forall j, c_op (callers s j) = ops j) ->
-  reg_ok ops n s -> step b s e = Some s' -> reg_ok ops n s'.
+(* a step that rewrites only caller i0 without changing whether it is in flight, registry untouched *)
+Lemma reg_ok_touch ops n s i0 c' r :
+  reg_ok ops n s -> (in_flight (c_phase c') <-> in_flight (c_phase (callers s i0))) ->
+  reg_ok ops n {| callers := upd (callers s) i0 c'; ncallers := ncallers s; reg := reg s; rd := r |}.
 Proof.
-  intros Hd Hn Hop Hok H i Hi. destruct (Hok i Hi) as [Ha Hb].
-  destruct e as [i0|i0|i0|i0|f| |i0 t|i0]; cbn [step] in H.
+  intros Hok Hiff i Hi. destruct (Hok i Hi) as [Ha Hb]. cbn.
+  destruct (Nat.eq_dec i i0) as [->|Hne]; [rewrite upd_same | rewrite upd_other by assumption; split; assumption].
+  split; [intros X; apply Ha; tauto | intros X; apply Hb; tauto].
+Qed.
+
+Ltac rtouch Ep := unfold with_rd, with_callers, with_reg; cbn [callers ncallers reg rd]; apply reg_ok_touch; [assumption | cbn; rewrite ?Ep; cbn; tauto].
+
+Lemma step_reg_ok tk b ops n s e s' :
+  distinct_ops ops n -> ncallers s = n -> (forall j, c_op (callers s j) = ops j) ->
+  reg_ok ops n s -> step tk b s e = Some s' -> reg_ok ops n s'.
+Proof.
+  intros Hd Hn Hop Hok H.
+  destruct e as [i0|i0|i0|i0|f| |i0 t|i0|i0|i0|op]; cbn [step] in H.
   - (* ERegister *)
     destruct (Nat.ltb i0 (ncallers s)) eqn:Elt; [|discriminate]. cbn [negb] in H.
     apply Nat.ltb_lt in Elt. rewrite Hn in Elt.
-    destruct (c_phase (callers s i0)) eqn:Ep; try discriminate. injection H as <-. cbn.
-    destruct (Hok i0 Elt) as [_ Hb0]. rewrite Ep in Hb0. rewrite Hop, (Hb0 (fun x => x)).
-    destruct (Nat.eq_dec i i0) as [->|Hne].
-    + rewrite upd_same. cbn. rewrite Z.eqb_refl. split; [reflexivity|intros X; exfalso; apply X; exact I].
-    + rewrite upd_other by assumption. cbn.
-      replace (ops i0 =? ops i) with false; [split; assumption|].
-      symmetry. apply Z.eqb_neq. intros E. apply Hne. symmetry. now apply Hd.
+    destruct (c_phase (callers s i0)) eqn:Ep; try discriminate.
+    destruct (Hok i0 Elt) as [_ Hb0]. rewrite Ep in Hb0. specialize (Hb0 (or_introl (fun x => x))).
+    assert (Hcons : 0 <= ops i0 ->
+              reg_ok ops n (with_reg (with_callers s (upd (callers s) i0 (set_phase (callers s i0) CParked)))
+                                           ((c_op (callers s i0), i0) :: reg s))).
+    { intros Hwf i Hi. destruct (Hok i Hi) as [Ha Hb]. cbn. rewrite Hop.
+      destruct (Nat.eq_dec i i0) as [->|Hne].
+      + rewrite upd_same. cbn. rewrite Z.eqb_refl. split; [reflexivity|intros [X|X]; [exfalso; apply X; exact I | lia]].
+      + rewrite upd_other by assumption.
+        replace (ops i0 =? ops i) with false; [split; assumption|].
+        symmetry. apply Z.eqb_neq. intros E. apply Hne. symmetry. now apply Hd. }
+    (* malformed op id on the adapter: in flight, nothing registered *)
+    assert (Hbad : ops i0 < 0 ->
+              reg_ok ops n (with_reg (with_callers s (upd (callers s) i0 (set_phase (callers s i0) CParked))) (reg s))).
+    { intros Hneg i Hi. destruct (Hok i Hi) as [Ha Hb]. cbn.
+      destruct (Nat.eq_dec i i0) as [->|Hne]; [rewrite upd_same | rewrite upd_other by assumption; split; assumption].
+      cbn. split; [intros _ X; lia | intros _; exact Hb0]. }
+    rewrite Hop in H. destruct (ops i0 <? 0) eqn:Eneg; [apply Z.ltb_lt in Eneg | apply Z.ltb_ge in Eneg].
+    + destruct tk; [injection H as <-; exact (Hbad Eneg)|].
+      destruct (c_data (callers s i0)); injection H as <-; rtouch Ep.
+    + rewrite Hb0 in H. destruct tk.
+      * injection H as <-. rewrite <- (Hop i0). exact (Hcons Eneg).
+      * destruct (c_data (callers s i0)); injection H as <-; try (rewrite <- (Hop i0); exact (Hcons Eneg)); rtouch Ep.
   - (* ERelease *)
     destruct (Nat.ltb i0 (ncallers s)) eqn:Elt; [|discriminate]. cbn [negb] in H.
-    destruct (c_phase (callers s i0)) eqn:Ep; try discriminate. injection H as <-. cbn.
-    destruct (Nat.eq_dec i i0) as [->|Hne]; [rewrite upd_same | rewrite upd_other by assumption; split; assumption].
-    cbn. rewrite Ep in Ha. split; [intros _; apply Ha; exact I | intros X; exfalso; apply X; exact I].
+    destruct (c_phase (callers s i0)) eqn:Ep; try discriminate.
+    destruct tk; [injection H as <-; rtouch Ep|].
+    destruct (c_data (callers s i0)); injection H as <-; rtouch Ep.
   - (* ESendOk *)
     destruct (Nat.ltb i0 (ncallers s)) eqn:Elt; [|discriminate]. cbn [negb] in H.
-    destruct (c_send (callers s i0)) eqn:Es; try discriminate. injection H as <-. cbn.
-    destruct (Nat.eq_dec i i0) as [->|Hne]; [rewrite upd_same | rewrite upd_other by assumption]; cbn; split; assumption.
+    destruct (c_send (callers s i0)) eqn:Es; try discriminate. injection H as <-. rtouch Es.
   - (* ESendFail *)
     destruct (Nat.ltb i0 (ncallers s)) eqn:Elt; [|discriminate]. cbn [negb] in H.
-    destruct (c_send (callers s i0)) eqn:Es; try discriminate. injection H as <-. cbn.
-    destruct (Nat.eq_dec i i0) as [->|Hne]; [rewrite upd_same | rewrite upd_other by assumption]; cbn; split; assumption.
+    destruct (c_send (callers s i0)) eqn:Es; try discriminate. injection H as <-. rtouch Es.
   - (* EArrive *)
-    destruct (rd s); [|discriminate]. destruct (reg_lookup (reg s) (f_op f)); injection H as <-; cbn; split; assumption.
+    unfold lookup_step in H. destruct (rd s); [|discriminate].
+    destruct (reg_lookup (reg s) (f_op f)); injection H as <-; exact Hok.
   - (* EDeliver *)
     destruct (rd s) as [|j0 f0]; [discriminate|].
     destruct (c_chan (callers s j0)) eqn:Ec.
-    + injection H as <-. cbn.
-      destruct (Nat.eq_dec i j0) as [->|Hne]; [rewrite upd_same | rewrite upd_other by assumption]; cbn; split; assumption.
-    + destruct b; [discriminate|]. injection H as <-. cbn. split; assumption.
+    + injection H as <-. rtouch Ec.
+    + destruct b; [discriminate|]. injection H as <-. exact Hok.
   - (* ETake *)
     destruct (Nat.ltb i0 (ncallers s)) eqn:Elt; [|discriminate]. cbn [negb] in H.
     destruct (c_phase (callers s i0)) eqn:Ep; try discriminate.
-    assert (Goal : forall c', c_phase c' = CTook t (match t with TResult => hd_error (c_chan (callers s i0)) | _ => None end) \/ True ->
-              in_flight (c_phase c') ->
-              (in_flight (c_phase (upd (callers s) i0 c' i)) -> reg_lookup (reg s) (ops i) = Some i)
-              /\ (~ in_flight (c_phase (upd (callers s) i0 c' i)) -> reg_lookup (reg s) (ops i) = None)).
-    { intros c' _ Hfl. destruct (Nat.eq_dec i i0) as [->|Hne]; [rewrite upd_same | rewrite upd_other by assumption; split; assumption].
-      rewrite Ep in Ha. split; [intros _; apply Ha; exact I | intros X; contradiction]. }
-    destruct t.
-    + destruct (c_chan (callers s i0)) eqn:Ec; [discriminate|]. injection H as <-. cbn. apply Goal; cbn; auto.
-    + destruct (c_deadline (callers s i0)); [|discriminate]. injection H as <-. cbn. apply Goal; cbn; auto.
-    + destruct (c_send (callers s i0)); try discriminate. injection H as <-. cbn. apply Goal; cbn; auto.
+    destruct t; [| | |discriminate].
+    + destruct (c_chan (callers s i0)) eqn:Ec; [discriminate|]. injection H as <-. rtouch Ep.
+    + destruct (match tk with KAdapter => c_deadline (callers s i0) | KNats => true end); [|discriminate].
+      injection H as <-. rtouch Ep.
+    + destruct (c_send (callers s i0)); try discriminate. injection H as <-. rtouch Ep.
   - (* EUnregister *)
     destruct (Nat.ltb i0 (ncallers s)) eqn:Elt; [|discriminate]. cbn [negb] in H.
     apply Nat.ltb_lt in Elt. rewrite Hn in Elt.
     destruct (c_phase (callers s i0)) as [| | |t got|] eqn:Ep; try discriminate.
-    destruct (outcome_of t got) as [o|]; [|discriminate]. injection H as <-. cbn. rewrite Hop.
+    destruct (outcome_of tk t got) as [o|]; [|discriminate]. injection H as <-.
+    intros i Hi. destruct (Hok i Hi) as [Ha Hb]. cbn. rewrite Hop.
     destruct (Nat.eq_dec i i0) as [->|Hne].
     + rewrite upd_same. cbn. rewrite reg_lookup_remove_same. split; [intros []|reflexivity].
     + rewrite upd_other by assumption. rewrite reg_lookup_remove_other; [split; assumption|].
       intros E. apply Hne. now apply Hd.
+  - (* ENotOpen *)
+    destruct (Nat.ltb i0 (ncallers s)) eqn:Elt; [|discriminate]. cbn [negb] in H.
+    destruct tk; [discriminate|].
+    destruct (c_phase (callers s i0)) eqn:Ep; try discriminate. injection H as <-. rtouch Ep.
+  - (* EPublishFail *)
+    destruct (Nat.ltb i0 (ncallers s)) eqn:Elt; [|discriminate]. cbn [negb] in H.
+    destruct tk; [discriminate|].
+    destruct (c_phase (callers s i0)) eqn:Ep; try discriminate.
+    destruct (c_data (callers s i0)); try discriminate. injection H as <-. rtouch Ep.
+  - (* EArrive503 *)
+    destruct tk; [discriminate|]. unfold lookup_step in H. destruct (rd s); [|discriminate].
+    destruct (reg_lookup (reg s) (f_op (na_frame op))); injection H as <-; exact Hok.
 Qed.
 
-Lemma run_reg_ok b ops dl n evs s :
-  distinct_ops ops n -> run b (init ops dl n) evs = Some s -> reg_ok ops n s.
+Lemma run_reg_ok tk b ops dl dk n evs s :
+  distinct_ops ops n -> run tk b (initd ops dl dk n) evs = Some s -> reg_ok ops n s.
 Proof.
   intros Hd.
   assert (G : forall evs s0 s, ncallers s0 = n -> (forall j, c_op (callers s0 j) = ops j) -> reg_ok ops n s0 ->
-              run b s0 evs = Some s -> reg_ok ops n s).
+              run tk b s0 evs = Some s -> reg_ok ops n s).
   { clear evs s. induction evs as [|e evs IH]; intros s0 s Hn Hop Hok H; cbn [run] in H.
     - injection H as <-. exact Hok.
-    - destruct (step b s0 e) as [s1|] eqn:E; [|discriminate].
-      destruct (step_keeps_shape b s0 e s1 E) as (A & B & _).
+    - destruct (step tk b s0 e) as [s1|] eqn:E; [|discriminate].
+      destruct (step_keeps_shape tk b s0 e s1 E) as (A & B & _).
       apply (IH s1 s); [congruence | intros j; rewrite B; apply Hop | eapply step_reg_ok; eassumption | exact H]. }
-  intros H. apply (G evs (init ops dl n) s); auto.
+  intros H. apply (G evs (initd ops dl dk n) s); auto.
   intros i Hi. cbn. split; [intros []|reflexivity].
 Qed.
 
+(** NATS, ANY op ids (two concurrent requests may share an FContext): Register's error is returned, so a
+    request that is in flight always owns the registration of its op id - nobody else can overwrite
+    or delete it (the adapter transport ignores Register's error and has no such guarantee) *)
+Definition owns (s : st) : Prop :=
+  forall i, (i < ncallers s)%nat -> in_flight (c_phase (callers s i)) -> reg_lookup (reg s) (c_op (callers s i)) = Some i.
+
+Lemma owns_touch s i0 c' r :
+  owns s -> c_op c' = c_op (callers s i0) -> (in_flight (c_phase c') -> in_flight (c_phase (callers s i0))) ->
+  owns {| callers := upd (callers s) i0 c'; ncallers := ncallers s; reg := reg s; rd := r |}.
+Proof.
+  intros Ho Eop Hfl i Hi. cbn in *.
+  destruct (Nat.eq_dec i i0) as [->|Hne]; [rewrite upd_same | rewrite upd_other by assumption; auto].
+  intros X. rewrite Eop. auto.
+Qed.
+
+Ltac otouch Ep := unfold with_rd, with_callers, with_reg; cbn [callers ncallers reg rd]; apply owns_touch;
+  [assumption | reflexivity | cbn; rewrite ?Ep; cbn; tauto].
+
+Lemma step_owns b s e s' : inv s -> owns s -> step KNats b s e = Some s' -> owns s'.
+Proof.
+  intros Hinv Ho H.
+  destruct e as [i0|i0|i0|i0|f| |i0 t|i0|i0|i0|op]; cbn [step] in H.
+  - destruct (Nat.ltb i0 (ncallers s)) eqn:Elt; [|discriminate]. cbn [negb] in H.
+    destruct (c_phase (callers s i0)) eqn:Ep; try discriminate.
+    destruct (c_data (callers s i0)); [| injection H as <-; otouch Ep |];
+      (destruct (c_op (callers s i0) <? 0); [injection H as <-; otouch Ep|]);
+      (destruct (reg_lookup (reg s) (c_op (callers s i0))) eqn:El; injection H as <-; [otouch Ep|]);
+      (intros i Hi; cbn in *; destruct (Nat.eq_dec i i0) as [->|Hne];
+       [rewrite upd_same; cbn; now rewrite Z.eqb_refl |
+        rewrite upd_other by assumption; intros X;
+        destruct (c_op (callers s i0) =? c_op (callers s i)) eqn:E; [|auto];
+        apply Z.eqb_eq in E; rewrite E in El; rewrite (Ho i Hi X) in El; discriminate]).
+  - destruct (Nat.ltb i0 (ncallers s)) eqn:Elt; [|discriminate]. cbn [negb] in H.
+    destruct (c_phase (callers s i0)) eqn:Ep; try discriminate.
+    destruct (c_data (callers s i0)); injection H as <-; otouch Ep.
+  - destruct (Nat.ltb i0 (ncallers s)) eqn:Elt; [|discriminate]. cbn [negb] in H.
+    destruct (c_send (callers s i0)) eqn:Es; try discriminate. injection H as <-. otouch Es.
+  - destruct (Nat.ltb i0 (ncallers s)) eqn:Elt; [|discriminate]. cbn [negb] in H.
+    destruct (c_send (callers s i0)) eqn:Es; try discriminate. injection H as <-. otouch Es.
+  - unfold lookup_step in H. destruct (rd s); [|discriminate].
+    destruct (reg_lookup (reg s) (f_op f)); injection H as <-; exact Ho.
+  - destruct (rd s) as [|j0 f0]; [discriminate|].
+    destruct (c_chan (callers s j0)) eqn:Ec.
+    + injection H as <-. otouch Ec.
+    + destruct b; [discriminate|]. injection H as <-. exact Ho.
+  - destruct (Nat.ltb i0 (ncallers s)) eqn:Elt; [|discriminate]. cbn [negb] in H.
+    destruct (c_phase (callers s i0)) eqn:Ep; try discriminate.
+    destruct t; [| | |discriminate].
+    + destruct (c_chan (callers s i0)) eqn:Ec; [discriminate|]. injection H as <-. otouch Ep.
+    + injection H as <-. otouch Ep.
+    + destruct (c_send (callers s i0)); try discriminate. injection H as <-. otouch Ep.
+  - destruct (Nat.ltb i0 (ncallers s)) eqn:Elt; [|discriminate]. cbn [negb] in H.
+    apply Nat.ltb_lt in Elt.
+    destruct (c_phase (callers s i0)) as [| | |t got|] eqn:Ep; try discriminate.
+    destruct (outcome_of KNats t got) as [o|]; [|discriminate]. injection H as <-.
+    intros i Hi. cbn in *.
+    destruct (Nat.eq_dec i i0) as [->|Hne]; [rewrite upd_same; cbn; intros [] | rewrite upd_other by assumption].
+    intros X. rewrite reg_lookup_remove_other; [auto|].
+    intros E. apply Hne. pose proof (Ho i Hi X) as A. rewrite E in A.
+    assert (B : reg_lookup (reg s) (c_op (callers s i0)) = Some i0) by (apply Ho; [exact Elt | rewrite Ep; exact I]).
+    congruence.
+  - destruct (Nat.ltb i0 (ncallers s)) eqn:Elt; [|discriminate]. cbn [negb] in H.
+    destruct (c_phase (callers s i0)) eqn:Ep; try discriminate. injection H as <-. otouch Ep.
+  - destruct (Nat.ltb i0 (ncallers s)) eqn:Elt; [|discriminate]. cbn [negb] in H.
+    destruct (c_phase (callers s i0)) eqn:Ep; try discriminate.
+    destruct (c_data (callers s i0)); try discriminate. injection H as <-. otouch Ep.
+  - unfold lookup_step in H. destruct (rd s); [|discriminate].
+    destruct (reg_lookup (reg s) (f_op (na_frame op))); injection H as <-; exact Ho.
+Qed.
+
+Lemma run_owns b evs : forall s s', inv s -> owns s -> run KNats b s evs = Some s' -> owns s'.
+Proof.
+  induction evs as [|e evs IH]; intros s s' Hi Ho H; cbn [run] in H.
+  - injection H as <-. exact Ho.
+  - destruct (step KNats b s e) as [s1|] eqn:E; [|discriminate].
+    eapply IH; [eapply step_inv; eassumption | eapply step_owns; eassumption | exact H].
+Qed.
+
+Lemma nats_in_flight_owns b ops dl dk n evs s i :
+  run KNats b (initd ops dl dk n) evs = Some s -> (i < n)%nat ->
+  in_flight (c_phase (callers s i)) -> reg_lookup (reg s) (ops i) = Some i.
+Proof.
+  intros H Hi Hfl. destruct (run_keeps_shape _ _ _ _ _ H) as (A & B & _). cbn in A, B.
+  rewrite <- B. apply (run_owns b evs _ s (inv_init ops dl dk n)); [|exact H|congruence|exact Hfl].
+  intros j _ []. 
+Qed.
+
+(** NATS: a Request whose Register fails returns that error and touches nothing else *)
+Lemma nats_register_error_inert b s i j :
+  (i < ncallers s)%nat -> c_phase (callers s i) = CNew -> c_data (callers s i) <> DEmpty ->
+  reg_lookup (reg s) (c_op (callers s i)) = Some j ->
+  exists s', step KNats b s (ERegister i) = Some s' /\ c_phase (callers s' i) = CDone ORegErr
+    /\ reg s' = reg s /\ rd s' = rd s /\ (forall k, k <> i -> callers s' k = callers s k).
+Proof.
+  intros Hi Hp Hd Hl. cbn [step]. apply Nat.ltb_lt in Hi. rewrite Hi. cbn [negb]. rewrite Hp, Hl.
+  destruct (c_data (callers s i)); try congruence; destruct (c_op (callers s i) <? 0);
+    (eexists; split; [reflexivity|]; cbn; rewrite upd_same; repeat split; auto; intros k Hk; now rewrite upd_other).
+Qed.
+
+(** a request whose FContext carries a malformed op id (negative in the model) registers nothing: on
+    NATS it returns Register's error at once, on the adapter (which ignores that error) it goes on
+    without a registration; either way registry, reader and all other requests are untouched *)
+Lemma malformed_opid_registers_nothing tk b s i :
+  (i < ncallers s)%nat -> c_phase (callers s i) = CNew -> c_op (callers s i) < 0 ->
+  (tk = KNats -> c_data (callers s i) <> DEmpty) ->
+  exists s', step tk b s (ERegister i) = Some s'
+    /\ c_phase (callers s' i) = match tk with KNats => CDone ORegErr | KAdapter => CParked end
+    /\ reg s' = reg s /\ rd s' = rd s /\ (forall k, k <> i -> callers s' k = callers s k).
+Proof.
+  intros Hi Hp Hneg Hd. cbn [step]. apply Nat.ltb_lt in Hi. rewrite Hi. cbn [negb]. rewrite Hp.
+  apply Z.ltb_lt in Hneg. rewrite Hneg. destruct tk.
+  - eexists; split; [reflexivity|]; cbn; rewrite upd_same; repeat split; auto; intros k Hk; now rewrite upd_other.
+  - specialize (Hd eq_refl). destruct (c_data (callers s i)); try congruence;
+      (eexists; split; [reflexivity|]; cbn; rewrite upd_same; repeat split; auto; intros k Hk; now rewrite upd_other).
+Qed.
+
 (** ** C06: the reader always has an enabled step (repaired dispatch) *)
-Lemma reader_never_blocks s :
+Lemma reader_never_blocks tk s :
   match rd s with
-  | RLooked _ _ => exists s', step false s EDeliver = Some s'
-  | RIdle => forall f, exists s', step false s (EArrive f) = Some s'
+  | RLooked _ _ => exists s', step tk false s EDeliver = Some s'
+  | RIdle => forall f, exists s', step tk false s (EArrive f) = Some s'
   end.
 Proof.
   destruct (rd s) as [|j f] eqn:Er.
-  - intros f. cbn [step]. rewrite Er. destruct (reg_lookup (reg s) (f_op f)); eauto.
+  - intros f. cbn [step]. unfold lookup_step. rewrite Er. destruct (reg_lookup (reg s) (f_op f)); eauto.
   - cbn [step]. rewrite Er. destruct (c_chan (callers s j)); eauto.
 Qed.
 
+Lemma reader_accepts_503 s op : rd s = RIdle -> exists s', step KNats false s (EArrive503 op) = Some s'.
+Proof. intros Er. cbn [step]. unfold lookup_step. rewrite Er. destruct (reg_lookup (reg s) (f_op (na_frame op))); eauto. Qed.
+
 (** a request waiting with an empty channel gets its response, whatever state any other caller is in *)
-Lemma fresh_response_delivered s i f :
+Lemma fresh_response_delivered tk s i f :
   rd s = RIdle -> (i < ncallers s)%nat ->
   c_phase (callers s i) = CSelect -> c_chan (callers s i) = [] ->
   reg_lookup (reg s) (f_op f) = Some i ->
-  exists s', run false s [EArrive f; EDeliver; ETake i TResult] = Some s'
+  exists s', run tk false s [EArrive f; EDeliver; ETake i TResult] = Some s'
              /\ c_phase (callers s' i) = CTook TResult (Some f).
 Proof.
-  intros Hr Hi Hp Hc Hl. cbn [run step]. rewrite Hr, Hl. cbn [rd with_rd callers].
+  intros Hr Hi Hp Hc Hl. cbn [run step]. unfold lookup_step. rewrite Hr, Hl. cbn [rd with_rd callers].
   rewrite Hc. cbn [callers with_rd with_callers ncallers].
   apply Nat.ltb_lt in Hi. rewrite Hi. cbn [negb]. rewrite upd_same. cbn [c_phase set_chan].
   rewrite Hp. cbn [c_chan set_chan]. eexists. split; [reflexivity|].
   cbn. rewrite upd_same. reflexivity.
+Qed.
+
+(** NATS: a 503 for the op id of a waiting request reaches it, and it reports SERVICE_NOT_AVAILABLE *)
+Lemma fresh_503_delivered s i op :
+  rd s = RIdle -> (i < ncallers s)%nat ->
+  c_phase (callers s i) = CSelect -> c_chan (callers s i) = [] ->
+  reg_lookup (reg s) op = Some i ->
+  exists s', run KNats false s [EArrive503 op; EDeliver; ETake i TResult; EUnregister i] = Some s'
+             /\ c_phase (callers s' i) = CDone ONotAvail.
+Proof.
+  intros Hr Hi Hp Hc Hl.
+  destruct (fresh_response_delivered KNats s i (na_frame op) Hr Hi Hp Hc Hl) as (s1 & R & P).
+  change [EArrive503 op; EDeliver; ETake i TResult; EUnregister i]
+    with ([EArrive503 op; EDeliver; ETake i TResult] ++ [EUnregister i]).
+  rewrite run_app.
+  replace (run KNats false s [EArrive503 op; EDeliver; ETake i TResult]) with (Some s1) by (rewrite <- R; reflexivity).
+  destruct (run_keeps_shape _ _ _ _ _ R) as (A & _).
+  cbn [run step]. rewrite A. apply Nat.ltb_lt in Hi. rewrite Hi. cbn [negb]. rewrite P. cbn.
+  eexists. split; [reflexivity|]. cbn. now rewrite upd_same.
 Qed.
 
 (** a frame is dropped only when its target already holds a frame with the same op id *)
@@ -380,91 +598,97 @@ Definition past_select (p : cphase) : Prop := match p with CTook _ _ | CDone _ =
 Definition wedged (s : st) : Prop :=
   exists j f x xs, rd s = RLooked j f /\ c_chan (callers s j) = x :: xs /\ past_select (c_phase (callers s j)).
 
-Lemma wedged_reader_disabled s : wedged s ->
-  step true s EDeliver = None /\ forall f, step true s (EArrive f) = None.
+Lemma wedged_reader_disabled tk s : wedged s ->
+  step tk true s EDeliver = None /\ (forall f, step tk true s (EArrive f) = None)
+  /\ (forall op, step tk true s (EArrive503 op) = None).
 Proof.
-  intros (j & f & x & xs & Hr & Hc & _). split; [|intros f']; cbn [step]; rewrite Hr; [now rewrite Hc | reflexivity].
+  intros (j & f & x & xs & Hr & Hc & _). split; [|split; [intros f'|intros op]]; cbn [step]; unfold lookup_step;
+    rewrite ?Hr; [now rewrite Hc | reflexivity | destruct tk; reflexivity].
 Qed.
 
-Lemma wedged_stable s e s' : wedged s -> step true s e = Some s' -> wedged s'.
+Lemma wedged_stable tk s e s' : wedged s -> step tk true s e = Some s' -> wedged s'.
 Proof.
-  intros (j & f & x & xs & Hr & Hc & Hp) H.
-  destruct e as [i|i|i|i|f'| |i t|i]; cbn [step] in H.
-  - destruct (Nat.ltb i (ncallers s)); [|discriminate]. cbn [negb] in H.
-    destruct (c_phase (callers s i)) eqn:Ep; try discriminate. injection H as <-.
-    exists j, f, x, xs. cbn. destruct (Nat.eq_dec j i) as [->|?]; [rewrite Ep in Hp; contradiction|].
-    rewrite upd_other by assumption. auto.
-  - destruct (Nat.ltb i (ncallers s)); [|discriminate]. cbn [negb] in H.
-    destruct (c_phase (callers s i)) eqn:Ep; try discriminate. injection H as <-.
-    exists j, f, x, xs. cbn. destruct (Nat.eq_dec j i) as [->|?]; [rewrite Ep in Hp; contradiction|].
-    rewrite upd_other by assumption. auto.
-  - destruct (Nat.ltb i (ncallers s)); [|discriminate]. cbn [negb] in H.
-    destruct (c_send (callers s i)); try discriminate. injection H as <-.
-    exists j, f, x, xs. cbn. destruct (Nat.eq_dec j i) as [->|?]; [rewrite upd_same | rewrite upd_other by assumption]; cbn; auto.
-  - destruct (Nat.ltb i (ncallers s)); [|discriminate]. cbn [negb] in H.
-    destruct (c_send (callers s i)); try discriminate. injection H as <-.
-    exists j, f, x, xs. cbn. destruct (Nat.eq_dec j i) as [->|?]; [rewrite upd_same | rewrite upd_other by assumption]; cbn; auto.
-  - rewrite Hr in H. discriminate.
-  - rewrite Hr, Hc in H. discriminate.
-  - destruct (Nat.ltb i (ncallers s)); [|discriminate]. cbn [negb] in H.
-    destruct (c_phase (callers s i)) eqn:Ep; try discriminate.
-    assert (Hne : j <> i) by (intros ->; rewrite Ep in Hp; contradiction).
-    destruct t.
-    + destruct (c_chan (callers s i)); [discriminate|]. injection H as <-.
-      exists j, f, x, xs. cbn. rewrite upd_other by assumption. auto.
-    + destruct (c_deadline (callers s i)); [|discriminate]. injection H as <-.
-      exists j, f, x, xs. cbn. rewrite upd_other by assumption. auto.
-    + destruct (c_send (callers s i)); try discriminate. injection H as <-.
-      exists j, f, x, xs. cbn. rewrite upd_other by assumption. auto.
-  - destruct (Nat.ltb i (ncallers s)); [|discriminate]. cbn [negb] in H.
-    destruct (c_phase (callers s i)) as [| | |t got|] eqn:Ep; try discriminate.
-    destruct (outcome_of t got); [|discriminate]. injection H as <-.
-    exists j, f, x, xs. cbn. destruct (Nat.eq_dec j i) as [->|?]; [rewrite upd_same | rewrite upd_other by assumption]; cbn; auto.
+  intros W H. pose proof W as (j & f & x & xs & Hr & Hc & Hp).
+  assert (T : forall i c' g, 
+             (past_select (c_phase (callers s i)) -> c_chan c' = c_chan (callers s i) /\ past_select (c_phase c')) ->
+             wedged {| callers := upd (callers s) i c'; ncallers := ncallers s; reg := g; rd := rd s |}).
+  { intros i c' g Hk. destruct (Nat.eq_dec j i) as [->|Hne].
+    - destruct (Hk Hp) as [A B]. exists i, f, x, xs. cbn. rewrite upd_same. rewrite A. auto.
+    - exists j, f, x, xs. cbn. rewrite upd_other by assumption. auto. }
+  destruct e as [i|i|i|i|f'| |i t|i|i|i|op]; cbn [step] in H; unfold lookup_step in H;
+    try (rewrite Hr in H; try rewrite Hc in H; try destruct tk; discriminate);
+    split_step H; injection H as <-; unfold with_rd, with_callers, with_reg; cbn [callers ncallers reg rd];
+    apply T; cbn;
+    repeat match goal with E : c_phase (callers s i) = _ |- _ => rewrite E; clear E end; cbn; try tauto; auto.
 Qed.
 
-Lemma wedged_forever evs : forall s s', wedged s -> run true s evs = Some s' ->
-  wedged s' /\ ~ In EDeliver evs /\ (forall f, ~ In (EArrive f) evs).
+Lemma wedged_forever tk evs : forall s s', wedged s -> run tk true s evs = Some s' ->
+  wedged s' /\ ~ In EDeliver evs /\ (forall f, ~ In (EArrive f) evs) /\ (forall op, ~ In (EArrive503 op) evs).
 Proof.
   induction evs as [|e evs IH]; intros s s' W H; cbn [run] in H.
   - injection H as <-. repeat split; auto.
-  - destruct (step true s e) as [s1|] eqn:E; [|discriminate].
-    destruct (wedged_reader_disabled s W) as [D A].
-    destruct (IH s1 s' (wedged_stable s e s1 W E) H) as (W' & ND & NA).
+  - destruct (step tk true s e) as [s1|] eqn:E; [|discriminate].
+    destruct (wedged_reader_disabled tk s W) as (D & A & A5).
+    destruct (IH s1 s' (wedged_stable tk s e s1 W E) H) as (W' & ND & NA & NA5).
     repeat split; auto.
     + intros [X|X]; [subst e; congruence | contradiction].
     + intros f [X|X]; [subst e; rewrite A in E; discriminate | eapply NA; eassumption].
+    + intros op [X|X]; [subst e; rewrite A5 in E; discriminate | eapply NA5; eassumption].
 Qed.
 
 (** ** C13 *)
-Lemma timeout_branch_enabled b s i :
-  (i < ncallers s)%nat -> c_phase (callers s i) = CSelect -> c_deadline (callers s i) = true ->
-  exists s', step b s (ETake i TTimeout) = Some s' /\ c_phase (callers s' i) = CTook TTimeout None
+Lemma timeout_branch_enabled tk b s i :
+  (i < ncallers s)%nat -> c_phase (callers s i) = CSelect -> (tk = KNats \/ c_deadline (callers s i) = true) ->
+  exists s', step tk b s (ETake i TTimeout) = Some s' /\ c_phase (callers s' i) = CTook TTimeout None
              /\ reg s' = reg s /\ rd s' = rd s /\ (forall j, j <> i -> callers s' j = callers s j).
 Proof.
-  intros Hi Hp Hd. cbn [step]. apply Nat.ltb_lt in Hi. rewrite Hi. cbn [negb]. rewrite Hp, Hd.
+  intros Hi Hp Hd. cbn [step]. apply Nat.ltb_lt in Hi. rewrite Hi. cbn [negb]. rewrite Hp.
+  replace (match tk with KAdapter => c_deadline (callers s i) | KNats => true end) with true
+    by (destruct Hd as [->|Hd]; [reflexivity | destruct tk; auto]).
   eexists. split; [reflexivity|]. cbn. rewrite upd_same. repeat split; auto.
   intros j Hj. now rewrite upd_other.
 Qed.
 
 Lemma unregister_outcome b s i t got :
-  (i < ncallers s)%nat -> c_phase (callers s i) = CTook t got -> (t = TResult -> got <> None) ->
-  exists s' o, step b s (EUnregister i) = Some s' /\ c_phase (callers s' i) = CDone o
+  (i < ncallers s)%nat -> c_phase (callers s i) = CTook t got -> (t = TResult -> got <> None) -> t <> TTooLarge ->
+  exists s' o, step KAdapter b s (EUnregister i) = Some s' /\ c_phase (callers s' i) = CDone o
     /\ (o = OTimedOut <-> t = TTimeout) /\ (o = OSendErr <-> t = TSendErr)
     /\ (forall f, o = OOk f <-> (t = TResult /\ got = Some f)).
 Proof.
-  intros Hi Hp Hg. cbn [step]. apply Nat.ltb_lt in Hi. rewrite Hi. cbn [negb]. rewrite Hp.
-  destruct t, got as [f0|]; cbn [outcome_of]; try (exfalso; now apply Hg);
+  intros Hi Hp Hg Hl. cbn [step]. apply Nat.ltb_lt in Hi. rewrite Hi. cbn [negb]. rewrite Hp.
+  destruct t, got as [f0|]; cbn [outcome_of]; try (exfalso; now apply Hg); try (exfalso; now apply Hl);
     (eexists; eexists; split; [reflexivity|]; cbn; rewrite upd_same; cbn;
      split; [reflexivity|]; repeat split; try discriminate; try congruence; try tauto;
      try (intros [X Y]; congruence); try (intros [X _]; discriminate)).
 Qed.
 
-Lemma done_not_registered b ops dl n evs s i o :
-  distinct_ops ops n -> run b (init ops dl n) evs = Some s -> (i < n)%nat ->
+(** NATS: the deferred Unregister always runs (it is installed right after Register succeeded) and the
+    reported outcome is determined by how the request left: too large / publish error / timeout /
+    a frame, which is SERVICE_NOT_AVAILABLE exactly when it is the empty frame *)
+Lemma unregister_outcome_nats b s i t got :
+  (i < ncallers s)%nat -> c_phase (callers s i) = CTook t got -> (t = TResult -> got <> None) ->
+  exists s' o, step KNats b s (EUnregister i) = Some s' /\ c_phase (callers s' i) = CDone o
+    /\ reg s' = reg_remove (reg s) (c_op (callers s i))
+    /\ (o = OTimedOut <-> t = TTimeout) /\ (o = OSendErr <-> t = TSendErr) /\ (o = OTooLarge <-> t = TTooLarge)
+    /\ (o = ONotAvail <-> (t = TResult /\ exists f, got = Some f /\ is_na f = true))
+    /\ (forall f, o = OOk f <-> (t = TResult /\ got = Some f /\ is_na f = false)).
+Proof.
+  intros Hi Hp Hg. cbn [step]. apply Nat.ltb_lt in Hi. rewrite Hi. cbn [negb]. rewrite Hp.
+  destruct t, got as [f0|]; cbn [outcome_of]; try (exfalso; now apply Hg);
+    try destruct (is_na f0) eqn:En;
+    (eexists; eexists; split; [reflexivity|]; cbn; rewrite upd_same; cbn;
+     split; [reflexivity|]; split; [reflexivity|]; repeat split; try discriminate; try congruence; try tauto;
+     try (intros (X & g & Y & Z); congruence); try (intros (X & Y & Z); congruence);
+     try (intros (X & g & Y & Z); discriminate); try (intros (X & Y); discriminate);
+     try (eexists; split; [reflexivity|assumption])).
+Qed.
+
+Lemma done_not_registered tk b ops dl dk n evs s i o :
+  distinct_ops ops n -> run tk b (initd ops dl dk n) evs = Some s -> (i < n)%nat ->
   c_phase (callers s i) = CDone o -> reg_lookup (reg s) (ops i) = None.
 Proof.
-  intros Hd H Hi Hp. destruct (run_reg_ok b ops dl n evs s Hd H i Hi) as [_ Hb].
-  apply Hb. rewrite Hp. intros [].
+  intros Hd H Hi Hp. destruct (run_reg_ok tk b ops dl dk n evs s Hd H i Hi) as [_ Hb].
+  apply Hb. left. rewrite Hp. intros [].
 Qed.
 
 (** ** frames for requests that already left their select change nobody's outcome *)
@@ -474,50 +698,65 @@ Definition sim (s1 s2 : st) : Prop :=
             /\ c_phase (callers s1 j) = c_phase (callers s2 j)
             /\ c_send (callers s1 j) = c_send (callers s2 j)
             /\ c_deadline (callers s1 j) = c_deadline (callers s2 j)
+            /\ c_data (callers s1 j) = c_data (callers s2 j)
             /\ (~ past_select (c_phase (callers s1 j)) -> c_chan (callers s1 j) = c_chan (callers s2 j)).
 
 Lemma sim_refl s : sim s s.
 Proof. repeat split; auto. Qed.
 
-Lemma sim_step s1 s2 e s1' :
-  sim s1 s2 -> step false s1 e = Some s1' -> exists s2', step false s2 e = Some s2' /\ sim s1' s2'.
+Lemma sim_lookup s1 s2 f s1' :
+  sim s1 s2 -> lookup_step s1 f = Some s1' -> exists s2', lookup_step s2 f = Some s2' /\ sim s1' s2'.
+Proof.
+  intros (Hn & Hr & Hd & Hc) H. unfold lookup_step in *.
+  rewrite <- Hd, <- Hr. destruct (rd s1) eqn:Er; [|discriminate].
+  destruct (reg_lookup (reg s1) (f_op f)); injection H as <-; eexists; (split; [reflexivity|]).
+  + split; [exact Hn|]. split; [exact Hr|]. split; [reflexivity|]. exact Hc.
+  + split; [exact Hn|]. split; [exact Hr|]. split; [congruence|]. exact Hc.
+Qed.
+
+Lemma sim_step tk s1 s2 e s1' :
+  sim s1 s2 -> step tk false s1 e = Some s1' -> exists s2', step tk false s2 e = Some s2' /\ sim s1' s2'.
 Proof.
   intros (Hn & Hr & Hd & Hc) H.
   (* pointwise comparison after updating caller i on both sides *)
   assert (Upd : forall i c1 c2 r g1 g2, g1 = g2 ->
             c_op c1 = c_op c2 -> c_phase c1 = c_phase c2 -> c_send c1 = c_send c2 -> c_deadline c1 = c_deadline c2 ->
+            c_data c1 = c_data c2 ->
             (~ past_select (c_phase c1) -> c_chan c1 = c_chan c2) ->
             sim {| callers := upd (callers s1) i c1; ncallers := ncallers s1; reg := g1; rd := r |}
                 {| callers := upd (callers s2) i c2; ncallers := ncallers s2; reg := g2; rd := r |}).
-  { intros i c1 c2 r g1 g2 Eg A1 A2 A3 A4 A5. split; [exact Hn|]. split; [exact Eg|]. split; [reflexivity|]. cbn.
-    intros j. destruct (Nat.eq_dec j i) as [->|?]; [rewrite !upd_same; auto | rewrite !upd_other by assumption; apply Hc]. }
-  destruct e as [i|i|i|i|f| |i t|i]; cbn [step] in *.
+  { intros i c1 c2 r g1 g2 Eg A1 A2 A3 A4 A6 A5. split; [exact Hn|]. split; [exact Eg|]. split; [reflexivity|]. cbn.
+    intros j. destruct (Nat.eq_dec j i) as [->|?]; [rewrite !upd_same; auto 7 | rewrite !upd_other by assumption; apply Hc]. }
+  Ltac fin Upd Hr Hd E1 E5 Ep :=
+    eexists; split; [reflexivity|]; unfold with_reg, with_callers, with_rd; cbn [callers ncallers reg rd];
+    rewrite <- ?Hr, <- ?E1, <- ?Hd; apply Upd; cbn; auto; try congruence;
+    try (intros _; apply E5; rewrite ?Ep; cbn; auto); try (intros X; exfalso; apply X; exact I).
+  destruct e as [i|i|i|i|f| |i t|i|i|i|op]; cbn [step] in *.
   - rewrite <- Hn. destruct (Nat.ltb i (ncallers s1)); [|discriminate]. cbn [negb] in *.
-    destruct (Hc i) as (E1 & E2 & E3 & E4 & E5). rewrite <- E2.
-    destruct (c_phase (callers s1 i)) eqn:Ep; try discriminate. injection H as <-.
-    eexists. split; [reflexivity|]. unfold with_reg, with_callers, with_rd. cbn [callers ncallers reg rd].
-    rewrite <- ?Hr, <- ?E1, <- ?Hd. apply Upd; cbn; auto; try congruence; try (intros _; apply E5; rewrite ?Ep; cbn; auto).
+    destruct (Hc i) as (E1 & E2 & E3 & E4 & E6 & E5). rewrite <- E2.
+    destruct (c_phase (callers s1 i)) eqn:Ep; try discriminate.
+    rewrite <- E6, <- Hr, <- E1.
+    destruct tk; [injection H as <-; fin Upd Hr Hd E1 E5 Ep|].
+    destruct (c_data (callers s1 i)) eqn:Edk; [| injection H as <-; fin Upd Hr Hd E1 E5 Ep |];
+      (destruct (c_op (callers s1 i) <? 0); [injection H as <-; fin Upd Hr Hd E1 E5 Ep|]);
+      (destruct (reg_lookup (reg s1) (c_op (callers s1 i))); injection H as <-; fin Upd Hr Hd E1 E5 Ep).
   - rewrite <- Hn. destruct (Nat.ltb i (ncallers s1)); [|discriminate]. cbn [negb] in *.
-    destruct (Hc i) as (E1 & E2 & E3 & E4 & E5). rewrite <- E2.
-    destruct (c_phase (callers s1 i)) eqn:Ep; try discriminate. injection H as <-.
-    eexists. split; [reflexivity|]. unfold with_reg, with_callers, with_rd. cbn [callers ncallers reg rd].
-    rewrite <- ?Hd. apply Upd; cbn; auto; try congruence; try (intros _; apply E5; rewrite ?Ep; cbn; auto).
+    destruct (Hc i) as (E1 & E2 & E3 & E4 & E6 & E5). rewrite <- E2.
+    destruct (c_phase (callers s1 i)) eqn:Ep; try discriminate.
+    rewrite <- E6.
+    destruct tk; [injection H as <-; fin Upd Hr Hd E1 E5 Ep|].
+    destruct (c_data (callers s1 i)) eqn:Edk; injection H as <-; fin Upd Hr Hd E1 E5 Ep.
   - rewrite <- Hn. destruct (Nat.ltb i (ncallers s1)); [|discriminate]. cbn [negb] in *.
-    destruct (Hc i) as (E1 & E2 & E3 & E4 & E5). rewrite <- E3.
+    destruct (Hc i) as (E1 & E2 & E3 & E4 & E6 & E5). rewrite <- E3.
     destruct (c_send (callers s1 i)) eqn:Esd; try discriminate. injection H as <-.
-    eexists. split; [reflexivity|]. unfold with_reg, with_callers, with_rd. cbn [callers ncallers reg rd].
-    rewrite <- ?Hd. apply Upd; cbn; auto; try congruence.
+    fin Upd Hr Hd E1 E5 Esd.
   - rewrite <- Hn. destruct (Nat.ltb i (ncallers s1)); [|discriminate]. cbn [negb] in *.
-    destruct (Hc i) as (E1 & E2 & E3 & E4 & E5). rewrite <- E3.
+    destruct (Hc i) as (E1 & E2 & E3 & E4 & E6 & E5). rewrite <- E3.
     destruct (c_send (callers s1 i)) eqn:Esd; try discriminate. injection H as <-.
-    eexists. split; [reflexivity|]. unfold with_reg, with_callers, with_rd. cbn [callers ncallers reg rd].
-    rewrite <- ?Hd. apply Upd; cbn; auto; try congruence.
-  - rewrite <- Hd, <- Hr. destruct (rd s1) eqn:Er; [|discriminate].
-    destruct (reg_lookup (reg s1) (f_op f)); injection H as <-; eexists; (split; [reflexivity|]).
-    + split; [exact Hn|]. split; [exact Hr|]. split; [reflexivity|]. exact Hc.
-    + split; [exact Hn|]. split; [exact Hr|]. split; [congruence|]. exact Hc.
+    fin Upd Hr Hd E1 E5 Esd.
+  - eapply sim_lookup; [|exact H]. repeat split; auto; apply Hc.
   - rewrite <- Hd. destruct (rd s1) as [|j0 f0]; [discriminate|].
-    destruct (Hc j0) as (E1 & E2 & E3 & E4 & E5).
+    destruct (Hc j0) as (E1 & E2 & E3 & E4 & E6 & E5).
     destruct (c_chan (callers s1 j0)) as [|x1 r1] eqn:C1; injection H as <-;
       destruct (c_chan (callers s2 j0)) as [|x2 r2] eqn:C2; eexists; (split; [reflexivity|]).
     + unfold with_reg, with_callers, with_rd. cbn [callers ncallers reg rd]. apply Upd; cbn; auto; try congruence.
@@ -530,43 +769,51 @@ Proof.
       cbn. repeat split; auto. intros X. exfalso. specialize (E5 X). congruence.
     + split; [exact Hn|]. split; [exact Hr|]. split; [reflexivity|]. exact Hc.
   - rewrite <- Hn. destruct (Nat.ltb i (ncallers s1)); [|discriminate]. cbn [negb] in *.
-    destruct (Hc i) as (E1 & E2 & E3 & E4 & E5). rewrite <- E2.
+    destruct (Hc i) as (E1 & E2 & E3 & E4 & E6 & E5). rewrite <- E2.
     destruct (c_phase (callers s1 i)) eqn:Ep; try discriminate.
     assert (Ech : c_chan (callers s1 i) = c_chan (callers s2 i)) by (apply E5; rewrite ?Ep; cbn; auto).
-    destruct t.
+    destruct t; [| | |discriminate].
     + rewrite <- Ech. destruct (c_chan (callers s1 i)) as [|f0 r0]; [discriminate|]. injection H as <-.
-      eexists. split; [reflexivity|]. unfold with_reg, with_callers, with_rd. cbn [callers ncallers reg rd].
-    rewrite <- ?Hd. apply Upd; cbn; auto; try congruence.
-    + rewrite <- E4. destruct (c_deadline (callers s1 i)) eqn:Edl; [|discriminate]. injection H as <-.
-      eexists. split; [reflexivity|]. unfold with_reg, with_callers, with_rd. cbn [callers ncallers reg rd].
-    rewrite <- ?Hd. apply Upd; cbn; auto; try congruence; try (intros X; exfalso; apply X; exact I).
+      fin Upd Hr Hd E1 E5 Ep.
+    + rewrite <- E4. destruct (match tk with KAdapter => c_deadline (callers s1 i) | KNats => true end) eqn:Edl; [|discriminate].
+      injection H as <-. fin Upd Hr Hd E1 E5 Ep.
     + rewrite <- E3. destruct (c_send (callers s1 i)) eqn:Esd; try discriminate. injection H as <-.
-      eexists. split; [reflexivity|]. unfold with_reg, with_callers, with_rd. cbn [callers ncallers reg rd].
-    rewrite <- ?Hd. apply Upd; cbn; auto; try congruence; try (intros X; exfalso; apply X; exact I).
+      fin Upd Hr Hd E1 E5 Ep.
   - rewrite <- Hn. destruct (Nat.ltb i (ncallers s1)); [|discriminate]. cbn [negb] in *.
-    destruct (Hc i) as (E1 & E2 & E3 & E4 & E5). rewrite <- E2.
+    destruct (Hc i) as (E1 & E2 & E3 & E4 & E6 & E5). rewrite <- E2.
     destruct (c_phase (callers s1 i)) as [| | |t got|] eqn:Ep; try discriminate.
-    destruct (outcome_of t got) as [o|]; [|discriminate]. injection H as <-.
-    eexists. split; [reflexivity|]. unfold with_reg, with_callers, with_rd. cbn [callers ncallers reg rd].
-    rewrite <- ?Hr, <- ?E1, <- ?Hd. apply Upd; cbn; auto; try congruence; try (intros X; exfalso; apply X; exact I).
+    destruct (outcome_of tk t got) as [o|]; [|discriminate]. injection H as <-.
+    fin Upd Hr Hd E1 E5 Ep.
+  - rewrite <- Hn. destruct (Nat.ltb i (ncallers s1)); [|discriminate]. cbn [negb] in *.
+    destruct (Hc i) as (E1 & E2 & E3 & E4 & E6 & E5). rewrite <- E2.
+    destruct tk; [discriminate|].
+    destruct (c_phase (callers s1 i)) eqn:Ep; try discriminate. injection H as <-.
+    fin Upd Hr Hd E1 E5 Ep.
+  - rewrite <- Hn. destruct (Nat.ltb i (ncallers s1)); [|discriminate]. cbn [negb] in *.
+    destruct (Hc i) as (E1 & E2 & E3 & E4 & E6 & E5). rewrite <- E2, <- E6.
+    destruct tk; [discriminate|].
+    destruct (c_phase (callers s1 i)) eqn:Ep; try discriminate.
+    destruct (c_data (callers s1 i)) eqn:Edk; try discriminate. injection H as <-.
+    fin Upd Hr Hd E1 E5 Ep.
+  - destruct tk; [discriminate|]. eapply sim_lookup; [|exact H]. repeat split; auto; apply Hc.
 Qed.
 
-Lemma sim_run evs : forall s1 s2 s1', sim s1 s2 -> run false s1 evs = Some s1' ->
-  exists s2', run false s2 evs = Some s2' /\ sim s1' s2'.
+Lemma sim_run tk evs : forall s1 s2 s1', sim s1 s2 -> run tk false s1 evs = Some s1' ->
+  exists s2', run tk false s2 evs = Some s2' /\ sim s1' s2'.
 Proof.
   induction evs as [|e evs IH]; intros s1 s2 s1' S H; cbn [run] in *.
   - injection H as <-. eauto.
-  - destruct (step false s1 e) as [t1|] eqn:E; [|discriminate].
-    destruct (sim_step s1 s2 e t1 S E) as (t2 & E2 & S2). rewrite E2. eauto.
+  - destruct (step tk false s1 e) as [t1|] eqn:E; [|discriminate].
+    destruct (sim_step tk s1 s2 e t1 S E) as (t2 & E2 & S2). rewrite E2. eauto.
 Qed.
 
 (** a frame (duplicate, late) whose target has already left its select: after lookup and hand-over the
     state differs from the one before only in that target's channel, which nobody reads any more *)
-Lemma late_frame_inert s f j :
+Lemma late_frame_inert tk s f j :
   rd s = RIdle -> reg_lookup (reg s) (f_op f) = Some j -> past_select (c_phase (callers s j)) ->
-  exists s', run false s [EArrive f; EDeliver] = Some s' /\ sim s' s.
+  exists s', run tk false s [EArrive f; EDeliver] = Some s' /\ sim s' s.
 Proof.
-  intros Hr Hl Hp. cbn [run step]. rewrite Hr, Hl. cbn [rd with_rd callers].
+  intros Hr Hl Hp. cbn [run step]. unfold lookup_step. rewrite Hr, Hl. cbn [rd with_rd callers].
   destruct (c_chan (callers s j)) as [|x xs] eqn:Ec; eexists; (split; [reflexivity|]).
   - split; [reflexivity|]. split; [reflexivity|]. split; [cbn; now rewrite Hr|]. cbn. intros k.
     destruct (Nat.eq_dec k j) as [->|?]; [rewrite upd_same | rewrite upd_other by assumption; repeat split; auto].
@@ -575,17 +822,199 @@ Proof.
 Qed.
 
 (** ... hence every continuation reaches the same outcomes, with or without that frame *)
-Lemma late_frame_changes_no_outcome s f j evs t :
+Lemma late_frame_changes_no_outcome tk s f j evs t :
   rd s = RIdle -> reg_lookup (reg s) (f_op f) = Some j -> past_select (c_phase (callers s j)) ->
-  run false s (EArrive f :: EDeliver :: evs) = Some t ->
-  exists t', run false s evs = Some t' /\ forall i, c_phase (callers t i) = c_phase (callers t' i).
+  run tk false s (EArrive f :: EDeliver :: evs) = Some t ->
+  exists t', run tk false s evs = Some t' /\ forall i, c_phase (callers t i) = c_phase (callers t' i).
 Proof.
   intros Hr Hl Hp H.
-  destruct (late_frame_inert s f j Hr Hl Hp) as (s' & R & S).
+  destruct (late_frame_inert tk s f j Hr Hl Hp) as (s' & R & S).
   change (EArrive f :: EDeliver :: evs) with ([EArrive f; EDeliver] ++ evs) in H.
-  assert (Happ : forall a b s0, run false s0 (a ++ b) = match run false s0 a with Some s1 => run false s1 b | None => None end).
-  { induction a as [|e a IH]; intros b0 s0; cbn [app run]; [reflexivity|]. destruct (step false s0 e); auto. }
-  rewrite Happ, R in H.
-  destruct (sim_run evs s' s t S H) as (t' & R' & S').
+  rewrite run_app, R in H.
+  destruct (sim_run tk evs s' s t S H) as (t' & R' & S').
   exists t'. split; [exact R'|]. intros i. destruct S' as (_ & _ & _ & Hc). apply Hc.
+Qed.
+
+(** NATS: the same for a late / duplicate status 503 message *)
+Lemma late_503_changes_no_outcome s op j evs t :
+  rd s = RIdle -> reg_lookup (reg s) op = Some j -> past_select (c_phase (callers s j)) ->
+  run KNats false s (EArrive503 op :: EDeliver :: evs) = Some t ->
+  exists t', run KNats false s evs = Some t' /\ forall i, c_phase (callers t i) = c_phase (callers t' i).
+Proof.
+  intros Hr Hl Hp H. apply (late_frame_changes_no_outcome KNats s (na_frame op) j evs t Hr Hl Hp). exact H.
+Qed.
+
+(** ** provenance: no frame is invented - whatever sits in a channel, in the reader's hand or in a
+    request's result reached dispatch earlier in the run *)
+Lemma is_na_eq f : is_na f = true -> f = na_frame (f_op f).
+Proof. destruct f as [o t]. unfold is_na, na_frame. cbn. intros H. apply Z.eqb_eq in H. now subst. Qed.
+
+Record prov (tk : kind) (P : frame -> Prop) (s : st) : Prop := {
+  p_chan : forall j f, In f (c_chan (callers s j)) -> P f;
+  p_rd : forall j f, rd s = RLooked j f -> P f;
+  p_took : forall j t f, c_phase (callers s j) = CTook t (Some f) -> P f;
+  p_done : forall j f, c_phase (callers s j) = CDone (OOk f) -> P f /\ (tk = KNats -> is_na f = false);
+  p_na : forall j, c_phase (callers s j) = CDone ONotAvail ->
+           tk = KNats /\ exists f, P f /\ is_na f = true /\ f_op f = c_op (callers s j)
+}.
+
+Lemma prov_init tk P ops dl dk n : prov tk P (initd ops dl dk n).
+Proof. split; cbn; intros; try contradiction; discriminate. Qed.
+
+Lemma prov_lookup tk P s f s' : prov tk P s -> P f -> lookup_step s f = Some s' -> prov tk P s'.
+Proof.
+  intros [A B C D E] Pf H. unfold lookup_step in H. destruct (rd s) eqn:Er; [|discriminate].
+  destruct (reg_lookup (reg s) (f_op f)); injection H as <-; split; cbn; auto.
+  - intros j f' X. injection X as _ ->. exact Pf.
+  - intros j f' X. rewrite Er in X. discriminate.
+Qed.
+
+(* a step that rewrites only caller i, keeping op id and channel and inventing no result *)
+Lemma prov_touch tk P s i c' r :
+  prov tk P s -> c_op c' = c_op (callers s i) -> c_chan c' = c_chan (callers s i) ->
+  (forall t f, c_phase c' = CTook t (Some f) -> c_phase (callers s i) = CTook t (Some f)) ->
+  (forall f, c_phase c' = CDone (OOk f) -> c_phase (callers s i) = CDone (OOk f)) ->
+  (c_phase c' = CDone ONotAvail -> c_phase (callers s i) = CDone ONotAvail) ->
+  r = rd s ->
+  forall g, prov tk P {| callers := upd (callers s) i c'; ncallers := ncallers s; reg := g; rd := r |}.
+Proof.
+  intros [A B C D E] Eop Ech Htk Hdn Hna -> g. split; cbn.
+  - intros j f Hf. case_upd j i; [rewrite Ech in Hf|]; eauto.
+  - eauto.
+  - intros j t f Hp. case_upd j i; eauto.
+  - intros j f Hp. case_upd j i; eauto.
+  - intros j Hp. case_upd j i; [rewrite Eop|]; eauto.
+Qed.
+
+Ltac ptouch Ep := unfold with_rd, with_callers, with_reg; cbn [callers ncallers reg rd]; apply prov_touch; auto;
+  cbn; rewrite ?Ep; cbn; try discriminate; auto.
+
+Lemma step_prov tk P b s e s' :
+  inv s -> prov tk P s -> (forall f, In f (arrivals [e]) -> P f) -> step tk b s e = Some s' -> prov tk P s'.
+Proof.
+  intros Hinv Hpr Harr H. pose proof Hpr as [A B C D E].
+  destruct e as [i|i|i|i|f| |i t|i|i|i|op]; cbn [step] in H.
+  - destruct (Nat.ltb i (ncallers s)) eqn:Elt; [|discriminate]. cbn [negb] in H.
+    destruct (c_phase (callers s i)) eqn:Ep; try discriminate.
+    destruct tk; [injection H as <-; ptouch Ep|].
+    destruct (c_data (callers s i)); [| injection H as <-; ptouch Ep |];
+      (destruct (c_op (callers s i) <? 0); [injection H as <-; ptouch Ep|]);
+      (destruct (reg_lookup (reg s) (c_op (callers s i))); injection H as <-; ptouch Ep).
+  - destruct (Nat.ltb i (ncallers s)) eqn:Elt; [|discriminate]. cbn [negb] in H.
+    destruct (c_phase (callers s i)) eqn:Ep; try discriminate.
+    destruct tk; [injection H as <-; ptouch Ep|].
+    destruct (c_data (callers s i)); injection H as <-; ptouch Ep.
+  - destruct (Nat.ltb i (ncallers s)) eqn:Elt; [|discriminate]. cbn [negb] in H.
+    destruct (c_send (callers s i)) eqn:Es; try discriminate. injection H as <-. ptouch Es.
+  - destruct (Nat.ltb i (ncallers s)) eqn:Elt; [|discriminate]. cbn [negb] in H.
+    destruct (c_send (callers s i)) eqn:Es; try discriminate. injection H as <-. ptouch Es.
+  - eapply prov_lookup; [exact Hpr | apply Harr; cbn; auto | exact H].
+  - destruct (rd s) as [|j0 f0] eqn:Er; [discriminate|].
+    pose proof (B j0 f0 eq_refl) as Pf0.
+    destruct (c_chan (callers s j0)) as [|x xs] eqn:Ec.
+    + injection H as <-. split; cbn.
+      * intros j f Hf. case_upd j j0; cbn in *; [destruct Hf as [<-|[]]; exact Pf0 | eauto].
+      * intros j f X. discriminate.
+      * intros j t f Hp. case_upd j j0; cbn in *; eauto.
+      * intros j f Hp. case_upd j j0; cbn in *; eauto.
+      * intros j Hp. case_upd j j0; cbn in *; eauto.
+    + destruct b; [discriminate|]. injection H as <-. split; cbn; auto. intros j f X. discriminate.
+  - destruct (Nat.ltb i (ncallers s)) eqn:Elt; [|discriminate]. cbn [negb] in H.
+    destruct (c_phase (callers s i)) eqn:Ep; try discriminate.
+    destruct t; [| | |discriminate].
+    + destruct (c_chan (callers s i)) as [|f0 rest] eqn:Ec; [discriminate|]. injection H as <-.
+      assert (Pf0 : P f0) by (apply (A i); rewrite Ec; now left).
+      split; cbn.
+      * intros j f Hf. case_upd j i; cbn in *; [contradiction|eauto].
+      * eauto.
+      * intros j t f Hp. case_upd j i; cbn in *; [injection Hp as _ <-; exact Pf0 | eauto].
+      * intros j f Hp. case_upd j i; cbn in *; [discriminate|eauto].
+      * intros j Hp. case_upd j i; cbn in *; [discriminate|eauto].
+    + destruct (match tk with KAdapter => c_deadline (callers s i) | KNats => true end); [|discriminate].
+      injection H as <-. ptouch Ep.
+    + destruct (c_send (callers s i)); try discriminate. injection H as <-. ptouch Ep.
+  - destruct (Nat.ltb i (ncallers s)) eqn:Elt; [|discriminate]. cbn [negb] in H.
+    destruct (c_phase (callers s i)) as [| | |t got|] eqn:Ep; try discriminate.
+    destruct (outcome_of tk t got) as [o|] eqn:Eo; [|discriminate]. injection H as <-.
+    split; cbn.
+    + intros j f Hf. case_upd j i; cbn in *; eauto.
+    + eauto.
+    + intros j t' f Hp. case_upd j i; cbn in *; [discriminate|eauto].
+    + intros j f Hp. case_upd j i; cbn in *; [|eauto]. injection Hp as ->.
+      destruct t, got as [g|]; cbn in Eo; try discriminate.
+      destruct tk; [injection Eo as ->; split; [eapply C; exact Ep | discriminate]|].
+      destruct (is_na g) eqn:En; [discriminate|]. injection Eo as ->. split; [eapply C; exact Ep | auto].
+    + intros j Hp. case_upd j i; cbn in *; [|eauto]. injection Hp as ->.
+      destruct t, got as [g|]; cbn in Eo; try discriminate.
+      destruct tk; [discriminate|]. destruct (is_na g) eqn:En; [|discriminate].
+      split; [reflexivity|]. exists g. split; [eapply C; exact Ep|]. split; [exact En|].
+      eapply (i_took s Hinv); exact Ep.
+  - destruct (Nat.ltb i (ncallers s)) eqn:Elt; [|discriminate]. cbn [negb] in H.
+    destruct tk; [discriminate|].
+    destruct (c_phase (callers s i)) eqn:Ep; try discriminate. injection H as <-. ptouch Ep.
+  - destruct (Nat.ltb i (ncallers s)) eqn:Elt; [|discriminate]. cbn [negb] in H.
+    destruct tk; [discriminate|].
+    destruct (c_phase (callers s i)) eqn:Ep; try discriminate.
+    destruct (c_data (callers s i)); try discriminate. injection H as <-. ptouch Ep.
+  - destruct tk; [discriminate|]. eapply prov_lookup; [exact Hpr | apply Harr; cbn; auto | exact H].
+Qed.
+
+Lemma arrivals_cons e evs f : In f (arrivals (e :: evs)) <-> In f (arrivals [e]) \/ In f (arrivals evs).
+Proof. destruct e; cbn; tauto. Qed.
+
+Lemma run_prov tk P b evs : forall s s', inv s -> prov tk P s -> (forall f, In f (arrivals evs) -> P f) ->
+  run tk b s evs = Some s' -> prov tk P s'.
+Proof.
+  induction evs as [|e evs IH]; intros s s' Hi Hp Ha H; cbn [run] in H.
+  - injection H as <-. exact Hp.
+  - destruct (step tk b s e) as [s1|] eqn:E; [|discriminate].
+    apply (IH s1 s'); [eapply step_inv; eassumption | | | exact H].
+    + eapply step_prov; try eassumption. intros f Hf. apply Ha. apply arrivals_cons. now left.
+    + intros f Hf. apply Ha. apply arrivals_cons. now right.
+Qed.
+
+(** a request completes successfully only with a frame that arrived, carries its op id and - on NATS -
+    is not the empty "service not available" frame *)
+Lemma own_response_arrived tk b ops dl dk n evs s i f :
+  run tk b (initd ops dl dk n) evs = Some s -> c_phase (callers s i) = CDone (OOk f) ->
+  f_op f = ops i /\ In f (arrivals evs) /\ (tk = KNats -> is_na f = false).
+Proof.
+  intros H Hp. split; [eapply own_response; eassumption|].
+  pose proof (run_prov tk (fun f => In f (arrivals evs)) b evs _ _ (inv_init ops dl dk n) (prov_init _ _ ops dl dk n) (fun f X => X) H) as Pr.
+  exact (p_done _ _ _ Pr i f Hp).
+Qed.
+
+(** NATS: a request reports SERVICE_NOT_AVAILABLE only if a status 503 message for ITS op id arrived *)
+Lemma not_avail_only_own_503 b ops dl dk n evs s i :
+  run KNats b (initd ops dl dk n) evs = Some s -> c_phase (callers s i) = CDone ONotAvail ->
+  In (na_frame (ops i)) (arrivals evs).
+Proof.
+  intros H Hp.
+  pose proof (run_prov KNats (fun f => In f (arrivals evs)) b evs _ _ (inv_init ops dl dk n) (prov_init _ _ ops dl dk n) (fun f X => X) H) as Pr.
+  destruct (p_na _ _ _ Pr i Hp) as (_ & f & Hin & Hna & Hop).
+  destruct (run_keeps_shape _ _ _ _ _ H) as (_ & B & _). rewrite B in Hop. cbn in Hop.
+  rewrite (is_na_eq f Hna), Hop in Hin. exact Hin.
+Qed.
+
+(** the adapter transport never reports it *)
+Lemma adapter_never_not_avail b ops dl dk n evs s i :
+  run KAdapter b (initd ops dl dk n) evs = Some s -> c_phase (callers s i) <> CDone ONotAvail.
+Proof.
+  intros H Hp.
+  pose proof (run_prov KAdapter (fun _ => True) b evs _ _ (inv_init ops dl dk n) (prov_init _ _ ops dl dk n) (fun f X => I) H) as Pr.
+  destruct (p_na _ _ _ Pr i Hp) as (X & _). discriminate.
+Qed.
+
+(** NATS: a status 503 for one op id reaches at most the request registered under it: lookup and
+    hand-over change nothing but that request's channel *)
+Lemma nats_503_local s op j s' :
+  rd s = RIdle -> reg_lookup (reg s) op = Some j -> run KNats false s [EArrive503 op; EDeliver] = Some s' ->
+  reg s' = reg s /\ rd s' = RIdle /\ ncallers s' = ncallers s /\
+  (forall k, k <> j -> callers s' k = callers s k) /\
+  c_phase (callers s' j) = c_phase (callers s j) /\
+  (c_chan (callers s' j) = c_chan (callers s j) \/ c_chan (callers s' j) = [na_frame op]).
+Proof.
+  intros Hr Hl H. cbn [run step] in H. unfold lookup_step in H. cbn [f_op na_frame] in H. rewrite Hr, Hl in H.
+  cbn [rd with_rd callers] in H. destruct (c_chan (callers s j)) eqn:Ec; injection H as <-; cbn; repeat split; auto;
+    try (intros k Hk; now rewrite upd_other); rewrite ?upd_same; cbn; auto.
 Qed.
